@@ -503,7 +503,10 @@ func c02DenseAdds(c *Ctx, rule string) {
 		return
 	}
 	paths, _ := exec(c, f, nil, 2)
-	isArg := func(t *Term) bool { t = t.unver(); return t.Op == "extract" && t.Sym == "0" && t.Args[0].Op == "assert" }
+	isArg := func(t *Term) bool {
+		t = t.unver()
+		return t.Op == "extract" && t.Sym == "0" && t.Args[0].Op == "assert"
+	}
 	fieldOf := func(t *Term, obj func(*Term) bool) string {
 		t = t.unver()
 		if t.Op == "field" && len(t.Args) == 1 && obj(t.Args[0]) {
